@@ -14,5 +14,5 @@ INIT Init
 NEXT Next
 VIEW view
 INVARIANTS TypeOK
-PROPERTIES DurabilityEventsAreNoOps StoreChangesOnlyByWrites FailedUpdateAppliesNothing BatchIsSequential IndexedReadsOwnWrites
+PROPERTIES DurabilityEventsAreNoOps StoreChangesOnlyByWrites FailedUpdateAppliesNothing BatchIsSequential IndexedReadsOwnWrites HasAgreesWithGet
 CHECK_DEADLOCK FALSE
